@@ -329,7 +329,35 @@ func checkC01(c *core.Ctx) {
 					found = true
 				}
 			})
-			// every path from the err != nil edge to return passes the ff call
+			// every path from the err != nil edge to a return passes the ff call
+			if found {
+				for _, ref := range *call.Referrers() {
+					bo, ok := ref.(*ssa.BinOp)
+					if !ok || !(core.IsNilConst(bo.X) || core.IsNilConst(bo.Y)) {
+						continue
+					}
+					for _, r2 := range *bo.Referrers() {
+						iff, ok := r2.(*ssa.If)
+						if !ok {
+							continue
+						}
+						idx := 0
+						if bo.Op.String() == "==" {
+							idx = 1
+						}
+						nb := iff.Block().Succs[idx]
+						isFF := func(i ssa.Instruction) bool {
+							cc := core.CallCommonOf(i)
+							return cc != nil && cc.StaticCallee() == ff
+						}
+						if len(nb.Instrs) > 0 && !isFF(nb.Instrs[0]) {
+							if esc := core.ForwardSearch(fn, nb.Instrs[0], func(i ssa.Instruction) bool { _, ok := i.(*ssa.Return); return ok }, isFF); esc != nil {
+								found = false
+							}
+						}
+					}
+				}
+			}
 			r12.Check(found, key, p.InstrPos(ins), "a returned decode error becomes the final DecodeFailure", "the error returned by the decoder is not recorded as the packet's error layer")
 		})
 	}
